@@ -336,7 +336,7 @@ def build(S: Sources) -> Unit:
         build_errors=errs,
         verus=vfiles,
         kani=[KaniSpec(injections={OPT: KANI_OPT, COLL: KANI_COLL, DIVAN: KANI_DIVAN}, harnesses=hs),
-              E.entry_kani("C15", only={"ignore_decision", "thread_counts_two", "thread_counts_one", "runner_over_entry_both", "runner_over_entry_entry_only"},
+              E.entry_kani("C15", only={"ignore_decision", "thread_counts_two", "thread_counts_one", "runner_over_entry_both", "runner_over_entry_entry_only", "runner_over_entry_per_option", "runner_counter_kept_when_entry_sets_another_option"},
                            tiers={})],
         undecided_clauses=[
             "clap itself (src/cli.rs: flag names, value parsers, DIVAN_* env fallbacks, value delimiters): ASSUMED to deliver the parsed values; what config_with_args does with them is under contract (Verus, region)",
